@@ -565,12 +565,17 @@ func (P) Generate(g *core.Gen) {
 // on the two networks with a small window, timestamps straddling their start/end times.
 func genShipped(g *core.Gen) {
 	r := g.R.Fork()
-	for i := 0; i < g.N(12, 300); i++ {
+	nSmall := g.N(12, 300)
+	for i := 0; i < nSmall+g.N(2, 12); i++ {
 		name := []string{"reg", "sim", "main", "test3", "test4", "sig"}[i%6]
+		full := i >= nSmall // the real 2016-block window and thresholds (1916 / 1512 / 1815)
+		if full {
+			name = []string{"main", "test3", "sig", "test4"}[(i-nSmall)%4]
+		}
 		p := netParams()[name]
 		W := int(p.MinerConfirmationWindow)
 		netT := int64(p.RuleChangeActivationThreshold)
-		if W > 200 { // keep the real deployments, shrink the window
+		if W > 200 && !full { // keep the real deployments, shrink the window
 			W, netT = 8, 6
 		}
 		var deps []gdep
@@ -594,10 +599,16 @@ func genShipped(g *core.Gen) {
 					d.minH = 40
 				}
 			}
+			if full && d.minH != 0 {
+				d.minH = int64(W)*3 + r.Pick(-1, 0, 1) // reachable within the generated chain
+			}
 			deps = append(deps, d)
 		}
 		t := &gtree{}
 		windows := 4
+		if full {
+			windows = 3
+		}
 		base := int64(1600000000)
 		if len(times) > 0 {
 			base = times[r.Intn(len(times))] - int64(W)*int64(r.Range(1, 3))*60
@@ -615,6 +626,10 @@ func genShipped(g *core.Gen) {
 				qn = W*windows - 1
 			}
 			qs = append(qs, fmt.Sprintf("d%d@%d", r.Intn(len(deps)), qn), fmt.Sprintf("v@%d", qn))
+		}
+		if full {
+			g.Case("shipped-fullwindow-"+name, true, lineOf(W, netT, deps, t, qs))
+			continue
 		}
 		g.Case("shipped-"+name, true, lineOf(W, netT, deps, t, qs))
 	}
